@@ -97,7 +97,7 @@ def canon(out, ops, strict=False):
     for op, items in zip(ops, gs):
         sid = re.match(r"[A-Z](\d+)", op)
         sid = sid.group(1) if sid else "-"
-        if op == "E":
+        if op == "E" or op[0] in "KH":
             res.append("")
             continue
         items = [x for x in items if x != "Wm"]   # the delayed multicast response itself
@@ -113,11 +113,15 @@ def canon(out, ops, strict=False):
             items = keep + (sorted(infl) if strict else [])
         elif not strict:
             items = [x for x in items if x[0] != "N" or x.startswith("N0.")]
+        else:
+            # a Reset that answers the library's own ping (ids 50001..) is the "pong": the pong
+            # handler is called instead of the nack handler
+            items = [x for x in items if not re.match(r"N2\.5\d{4}\.1$", x)]
         for it in items:
             if it[0] in "TE" and it[1] in "cn":
                 seen[(sid, it[2:].split(".")[0])] = 1
-        items = [x for x in items if x[0] in "AX"] + [x for x in items if x[0] in "TWE"] + \
-                [x for x in items if x[0] not in "AXTWE"]
+        items = [x for x in items if x[0] in "AXax("] + [x for x in items if x[0] in "TWE"] + \
+                [x for x in items if x[0] not in "AXax(TWE"]
         res.append(",".join(items))
     return " ".join("%d:%s" % (i, x) for i, x in enumerate(res))
 
@@ -130,9 +134,10 @@ def mon_line(prefix, ops, out):
     nsess = int(prefix[2])
     # histories with failing socket writes are judged by the bound-only checker
     toks = ["nsbound" if "E" in ops else "nsmon", prefix[2]] + list(prefix[3:3 + nsess])
+    seen_ping = set()
     for op, items in zip(ops, gs):
-        if op == "E":
-            toks += ["E", "-"]
+        if op == "E" or op[0] in "KH":
+            toks += [op, "-"]
             continue
         if op[0] == "W":
             # natural time: one pseudo timer event per session that showed activity
@@ -145,7 +150,14 @@ def mon_line(prefix, ops, out):
             for sid in sorted(per):
                 if any(x[0] == "W" for x in per[sid]):
                     return None
-                toks += ["T%s,0" % sid, ",".join(per[sid])]
+                # the library's own ping (empty CON, token 0) sent in this step, if it is new
+                pings = [x for x in per[sid] if re.match(r"Tc\d+\.0$", x) and (sid, x) not in seen_ping]
+                rest_ = [x for x in per[sid] if x not in pings]
+                if rest_:
+                    toks += ["T%s,0" % sid, ",".join(rest_)]
+                for x in pings:
+                    seen_ping.add((sid, x))
+                    toks += ["G%s" % sid, x]
             continue
         if any(("@" in it) or (it[0] == "W" and it != "Wm") for it in items):
             return None
@@ -169,7 +181,7 @@ def resolve_natural(ops, out):
     rops, grp = [], []
     for op, items in zip(ops, gs):
         if op[0] != "W":
-            sid = re.match(r"[A-Z](\d+)", op).group(1)
+            sid = re.match(r"[A-Z](\d+)", op).group(1) if op[0] != "K" else "-"
             for it in items:
                 if it[0] == "T" and it[1] in "cn":
                     seen.add((sid, it[2:].split(".")[0]))
@@ -195,6 +207,10 @@ def resolve_natural(ops, out):
                     rops.append("T%s,%s" % (sid, mid))
                 else:
                     seen.add((sid, mid))
+                    if body.endswith(".0") and body[1] == "c":
+                        # an empty CON nobody submitted: the library's keepalive ping
+                        idxs.append(len(rops))
+                        rops.append("G%s" % sid)
             elif body.startswith("N0."):
                 idxs.append(len(rops))
                 rops.append("T%s,%s" % (sid, body.split(".")[1]))
@@ -218,7 +234,8 @@ def peer_ok(ops, out):
             if it[0] == "T":
                 m = re.match(r"T[cn](\d+)\.\d+(?:@(\d+))?$", it)
                 if m:
-                    seen.add((m.group(2) or re.match(r"[A-Z](\d+)", op).group(1) if op[0] != "W" else m.group(2), m.group(1)))
+                    own = re.match(r"[A-Z](\d+)", op)
+                    seen.add((m.group(2) or (own.group(1) if own else "-"), m.group(1)))
     return True
 
 
@@ -428,6 +445,8 @@ def main(run):
         sweep_cfgs = [(1, 1, True, "c"), (2, 1, False, "c"), (1, 2, True, "s")]
         sw = [(p, o) for (ns_, rt, e0, kd) in sweep_cfgs
               for p, o in gen_nstart.enum_cases(depth, ns_, rt, e0, client=(kd == "c"))]
+        # ... and with a nack handler that retries every given-up / reset CON from the callback
+        sw += list(gen_nstart.enum_cases(depth - 1, 1, 1, True, hooks=True))
         # ... and two sessions sharing the context's send queue, using the same message ids
         d2 = 4 if quick else 5
         sw += list(gen_nstart.enum_cases2(d2, [(1, 1, True, True), (1, 1, True, False)]))
